@@ -430,6 +430,8 @@ func TestC08Repeat(t *testing.T) {
 			progs = append(progs, f)
 		}
 	}
+	// list literals spread over a variadic tail, short enough to fit whatever spare room the argument list has
+	progs = append(progs, "max([7]...)", "max(i, [f64]...)", "min([i, 2]...)", "fnV(1, [2]...)", "fnV(1, 2, [3]...)", "fnV(1, 2, [3, 4]...)", "fnSV('k', [s]...)", "fnSV('k', 'a', [s, 'b']...)", "[max([i]...), min(1, [2]...), max(1, 2, [3, 4]...)]")
 	// a caller's list read as a whole and spread over a variadic tail, in one formula and over one record
 	progs = append(progs, "[join(farr, ';'), max(farr...) ?? 0, join(farr, ';')]", "[includes(farr, '0.3'), min(farr...) ?? 0, includes(farr, '0.3')]", "fnV(farr...), join(farr, ',')", "[join(arr, ';'), fnV(arr...), toString(arr)]")
 	actions := []pureAction{{"eval", 0, 0}, {"unrelated", 0, 0}, {"analyse", 0, 0}, {"eval", 0, 0}, {"eval", 0, 1}, {"parse", 0, 0}, {"malformed", 0, 0}, {"eval", 0, 0}, {"eval", 0, 2}, {"unrelated", 0, 1}, {"eval", 0, 1}, {"eval", 0, 2}, {"analyse", 0, 0}}
